@@ -285,6 +285,11 @@ func TestOpenSSLRejectsFaults(t *testing.T) {
 			out, verr := tsVerify(t, dir, name, "req.tsq", "ca.pem")
 			ok := verr == nil && strings.Contains(out, "Verification: OK")
 			switch b {
+			case DuplicateDigestAttr:
+				// openssl ts tolerates a two-valued message-digest attribute (openssl cms does not)
+				if status != 200 {
+					t.Errorf("%v: HTTP status %d", b, status)
+				}
 			case Valid, GrantedWithMods, Hang:
 				if !ok || status != 200 || ctype != ContentTypeReply {
 					t.Errorf("%v: should verify: %v\n%s", b, verr, out)
@@ -650,7 +655,7 @@ func TestRequestRoundTrip(t *testing.T) {
 			}
 		}
 	}
-	if Behaviour(99).String() == "" || MSHTTP500.String() != "MSHTTP500" || len(behaviourNames) != int(MSHTTP500)+1 {
+	if Behaviour(99).String() == "" || MSHTTP500.String() != "MSHTTP500" || len(behaviourNames) != int(DuplicateDigestAttr)+1 {
 		t.Fatal("Behaviour names out of sync")
 	}
 }
